@@ -44,7 +44,7 @@ CATALOG = [
     # ---- C13
     ("C13", "capacity-test-removed", "fire", "operon_ai/organelles/lysosome.py",
      "            if len(self._queue) >= self.max_queue_size:\n                # Emergency digest\n                self._emergency_digest()\n", "", "C13-R3"),
-    ("C13", "suffix-off-by-one", "fire", "operon_ai/organelles/lysosome.py", "self._queue = self._queue[items_to_process:]", "self._queue = self._queue[items_to_process + 1:]", "C13-R4"),
+    ("C13", "suffix-off-by-one", "fire", "operon_ai/organelles/lysosome.py", "self._queue = self._queue[items_to_process:]", "self._queue = self._queue[items_to_process + 1:]", "C13-R3"),
     ("C13", "lock-to-rlock", "silent", "operon_ai/organelles/lysosome.py", "self._lock = threading.Lock()", "self._lock = threading.RLock()", None),
     ("C13", "toxic-returns-content", "fire", "operon_ai/organelles/lysosome.py", "        # - Notify security systems\n\n        return {}", "        # - Notify security systems\n\n        return {'leak': waste.content}", "C13-R6"),
     # ---- C14
